@@ -7,6 +7,7 @@ mod c05;
 mod c06;
 mod c07;
 mod c08;
+mod c10;
 mod c11;
 mod c12;
 mod c14;
@@ -42,6 +43,7 @@ fn main() {
                 "C07" => c07::run(&args, &mut rec),
                 "C08" => c08::run_c08(&args, &mut rec),
                 "C09" => c08::run_c09(&args, &mut rec),
+                "C10" => c10::run(&args, &mut rec),
                 "C11" => c11::run(&args, &mut rec),
                 "C12" => c12::run(&args, &mut rec),
                 "C13" => c13::run(&args, &mut rec),
